@@ -141,7 +141,7 @@ func c02Lines(b []byte) (nLF, nYAML int) {
 
 // c02Features names the byte-level traits of an input that the known position-arithmetic defects depend on
 // (used only inside violation signatures): altbreak = a YAML line break other than LF / CRLF (bare CR, NEL, LS, PS);
-// esc = a backslash (escape sequences in double-quoted scalars).
+// block = a block scalar header (| or > at the end of a line); esc = a backslash (escape sequences in double-quoted scalars).
 func c02Features(b []byte) string {
 	var f []string
 	alt := false
@@ -160,6 +160,9 @@ func c02Features(b []byte) string {
 	if alt {
 		f = append(f, "altbreak")
 	}
+	if c02BlockScalar.Match(b) {
+		f = append(f, "block")
+	}
 	if bytes.IndexByte(b, '\\') >= 0 {
 		f = append(f, "esc")
 	}
@@ -168,6 +171,8 @@ func c02Features(b []byte) string {
 	}
 	return strings.Join(f, "+")
 }
+
+var c02BlockScalar = regexp.MustCompile(`(?m)[|>][-+0-9]*[ \t]*(#.*)?\r?$`)
 
 // c02Trail: the file ends with a line break, so an (empty) line n+1 exists for editors and for strings.Split
 func c02Trail(b []byte) bool {
